@@ -2,7 +2,7 @@
 (* Scenario: unknown text-keyed members inserted into every extensible map of  *)
 (* a request, at every position, holding every kind of well-formed definite-   *)
 (* length CBOR value.  The request must decode exactly as without them.  C06.  *)
-EXTENDS Ctap, Gen, Faults, Dict
+EXTENDS Ctap, Gen, Faults, Lattice
 
 CONSTANT Deep     \* BOOLEAN
 
@@ -54,7 +54,8 @@ AllTextKeys == {k.b : k \in {x \in UNION {TextKeysOf(sn) : sn \in StructSchemas}
 \* what the map `sn` knows in configuration F (a member of a feature that is off is unknown)
 KnownIn(sn) == LET ms == Members(sn, F) IN
                {k.b : k \in {x \in UNION {{ms[i].key} \cup {ms[i].alias[j] : j \in 1..Len(ms[i].alias)} : i \in 1..Len(ms)} : x.k = "text"}}
-ForeignKeys(sn) == (AllTextKeys \cup {w \in DictAscii : Len(w) <= 24}) \ KnownIn(sn)
+\* ... and the letter-case variants of the names the map DOES know (a look-up that folds case)
+ForeignKeys(sn) == (AllTextKeys \cup {w \in DictAscii : Len(w) <= 24} \cup UNION {CaseVariants(k) : k \in KnownIn(sn)}) \ KnownIn(sn)
 
 \* ----- base requests
 BaseSeq == <<[i |-> 1, c |-> 1, sv |-> ReqRich(1, F)], [i |-> 2, c |-> 2, sv |-> ReqFull(2, F)],
